@@ -1,8 +1,8 @@
 //! Correspondence lines for the PMTiles tile-id and directory models (C01, C16).
 use crate::indep;
 use crate::util::*;
-use versatiles_container::verif_pmtiles_types::{tile_id_to_coord, EntriesV3, EntryV3, TileId};
-use versatiles_container::verif_versatiles_types::{BlockDefinition, TileIndex};
+use versatiles_container::verif_pmtiles_types::{tile_id_to_coord, EntriesV3, EntryV3, HeaderV3, TileId};
+use versatiles_container::verif_versatiles_types::{BlockDefinition, FileHeader, TileIndex};
 use versatiles_core::types::*;
 
 fn outcome<T>(r: Result<anyhow::Result<T>, String>, f: impl Fn(T) -> String) -> String {
@@ -145,6 +145,38 @@ fn bdef_line(col: &mut Collector, b: &[u8]) {
 		format!("ok {} {} {} {} {} {} {} {} {} {} {} {re}", c.z, c.x, c.y, g.x_min, g.y_min, g.x_max, g.y_max, t.offset, t.length, i.offset, i.length) });
 	col.out.line(&format!("vt.bdef {} => {txt}", if b.is_empty() { "-".into() } else { hex(b) }));
 }
+fn hdr_line(col: &mut Collector, rt: &tokio::runtime::Runtime, b: &[u8]) {
+	// from_reader reads the first 66 bytes of the file; the lines give at most 66
+	let mut dr: versatiles_core::io::DataReader = Box::new(versatiles_core::io::DataReaderBlob::from(b.to_vec()));
+	let r = guarded(|| rt.block_on(FileHeader::from_reader(&mut dr)));
+	let txt = outcome(r, |h| match guarded(|| h.to_blob()) { Ok(Ok(x)) => format!("ok {}", hex(x.as_slice())), Ok(Err(_)) => "ok err".into(), Err(_) => "ok panic".into() });
+	col.out.line(&format!("vt.hdr {} => {txt}", if b.is_empty() { "-".into() } else { hex(b) }));
+}
+fn gen_hdr_bytes(rng: &mut Rng) -> Vec<u8> {
+	let mut o = b"versatiles_v02".to_vec();
+	o.push(*rng.pick(&[0u8, 0x10, 0x11, 0x12, 0x13, 0x14, 0x20, 0x21, 0x22, 0x23, 0x23, 0x20, 0x10, 0x01, 0x15, 0x24, 0xff]));
+	o.push(*rng.pick(&[0u8, 1, 2, 0, 1, 2, 3, 255]));
+	o.push(rng.below(33) as u8); o.push(*rng.pick(&[0u8, 14, 31, 32, 255]));
+	for _ in 0..4 { o.extend_from_slice(&(*rng.pick(&[0i32, -1, i32::MIN, i32::MAX, 134_000_000, -1_800_000_000])).wrapping_add(rng.below(1000) as i32).to_be_bytes()); }
+	for _ in 0..4 { o.extend_from_slice(&(*rng.pick(&[0u64, 66, 1 << 20, 1 << 40, u64::MAX - 2000]) + rng.below(1000)).to_be_bytes()); }
+	o
+}
+fn pmhdr_line(col: &mut Collector, b: &[u8]) {
+	let r = guarded(|| HeaderV3::deserialize(&Blob::from(b.to_vec())));
+	let txt = outcome(r, |h| match guarded(|| h.serialize()) { Ok(Ok(x)) => format!("ok {}", hex(x.as_slice())), Ok(Err(_)) => "ok err".into(), Err(_) => "ok panic".into() });
+	col.out.line(&format!("pm.hdr {} => {txt}", if b.is_empty() { "-".into() } else { hex(b) }));
+}
+fn gen_pmhdr_bytes(rng: &mut Rng) -> Vec<u8> {
+	let mut o = b"PMTiles".to_vec(); o.push(*rng.pick(&[3u8, 3, 3, 3, 3, 3, 2, 4]));
+	for _ in 0..11 { o.extend_from_slice(&(*rng.pick(&[0u64, 127, 16384, 1 << 20, 1 << 40, u64::MAX - 2000]) + rng.below(1000)).to_le_bytes()); }
+	o.push(*rng.pick(&[0u8, 1, 1, 2, 255]));
+	o.push(*rng.pick(&[0u8, 1, 2, 2, 2, 3, 4, 5, 255])); o.push(*rng.pick(&[0u8, 1, 1, 2, 3, 4, 5])); o.push(*rng.pick(&[0u8, 1, 1, 2, 3, 4, 5, 6, 255]));
+	o.push(rng.below(33) as u8); o.push(*rng.pick(&[0u8, 14, 31, 32, 255]));
+	for _ in 0..4 { o.extend_from_slice(&(*rng.pick(&[0i32, -1, i32::MIN, i32::MAX, 134_000_000, -1_800_000_000])).wrapping_add(rng.below(1000) as i32).to_le_bytes()); }
+	o.push(rng.below(33) as u8);
+	for _ in 0..2 { o.extend_from_slice(&(*rng.pick(&[0i32, -1, i32::MIN, i32::MAX, 90_000_000])).wrapping_add(rng.below(1000) as i32).to_le_bytes()); }
+	o
+}
 fn tidx_line(col: &mut Collector, b: &[u8], add: u64) {
 	let r = guarded(|| TileIndex::from_blob(Blob::from(b.to_vec())));
 	let fmt = |t: &TileIndex| { let s = t.iter().map(|r| format!("{}:{}", r.offset, r.length)).collect::<Vec<_>>().join(","); if s.is_empty() { "-".to_string() } else { s } };
@@ -169,7 +201,14 @@ fn gen_bdef_bytes(rng: &mut Rng) -> Vec<u8> {
 	o
 }
 pub fn vtbytes_lines(col: &mut Collector, rng: &mut Rng, n: usize, malformed: bool) {
-	for _ in 0..n {
+	let rt = tokio::runtime::Builder::new_current_thread().enable_all().build().unwrap();
+	for i in 0..n {
+		if i % 2 == 0 { let mut h = gen_hdr_bytes(rng);
+			if malformed { match rng.below(6) { 0 => { let k = rng.below(67) as usize; h.truncate(k); } 1 => { let k = rng.below(16) as usize; h[k] = rng.next() as u8; } 2 => { let k = rng.below(h.len() as u64) as usize; h[k] ^= 1 << rng.below(8); } 3 => { h = rng.bytes(66); } 4 => { h[rng.below(14) as usize] = 0xff; } _ => {} } }
+			hdr_line(col, &rt, &h);
+			let mut p = gen_pmhdr_bytes(rng);
+			if malformed { match rng.below(6) { 0 => { let k = rng.below(128) as usize; p.truncate(k); } 1 => { let k = rng.below(8) as usize; p[k] = rng.next() as u8; } 2 => { let k = rng.below(p.len() as u64) as usize; p[k] ^= 1 << rng.below(8); } 3 => { p = rng.bytes(127); } 4 => { p.push(0); } _ => {} } }
+			pmhdr_line(col, &p); }
 		let mut b = gen_bdef_bytes(rng);
 		if malformed { match rng.below(5) { 0 => { let k = rng.below(b.len() as u64 + 1) as usize; b.truncate(k); } 1 => { let k = rng.below(b.len() as u64) as usize; b[k] = rng.next() as u8; } 2 => { b.extend(rng.bytes(3)); } 3 => { b = rng.bytes(33); } _ => {} } }
 		bdef_line(col, &b);
